@@ -640,9 +640,6 @@ func builtinMacroExpand(env *LEnv, args *LVal) *LVal {
 	}
 	maxDepth := env.Runtime.MaxMacroExpansions()
 	for depth := 0; ; depth++ {
-		if depth > maxDepth {
-			return env.Errorf("macro expansion depth exceeded (%d expansions)", depth)
-		}
 		if form.IsNil() {
 			return form
 		}
@@ -654,6 +651,14 @@ func builtinMacroExpand(env *LEnv, args *LVal) *LVal {
 		r, ok := macroExpand1(env, mac, macroArgList(form))
 		if !ok {
 			return form
+		}
+		// Count the way eval does: the expansion just made is number depth+1,
+		// and one more than the maximum is an error whatever it produced.  The
+		// test used to sit at the top of the loop with `depth > maxDepth`, which
+		// let a chain of max+1 expansions through when it ended in an atom:
+		// (eval (macroexpand '(m))) succeeded where (m) failed.
+		if depth+1 > maxDepth {
+			return env.Errorf("macro expansion depth exceeded (%d expansions)", depth+1)
 		}
 		if r.Type != LSExpr {
 			return r
